@@ -61,18 +61,32 @@ pub struct GraphCase {
     /// every file lives in `store/`; the requested directory `proj/` holds only symbolic links to
     /// the sources (a linked source counts as its target: processed once, output beside the target)
     pub linked: bool,
+    /// sources without out-edges are empty files (their output is the empty file)
+    pub empty_leaves: bool,
+    /// the base directory is `proj/`; odd files live in the sibling directory `shared/`, i.e.
+    /// outside the base, and are referred to as `../shared/fN.txt` (named inputs only)
+    pub outside: bool,
+    /// the stale file at every output path is a symbolic link to `old/<name>` (an old output kept
+    /// elsewhere): build writes through the link, dependency detection must still find the source
+    /// beside the link
+    pub stale_link: bool,
+    /// history inside this process, on the same directory: before the judged run, an earlier
+    /// revision of the project (edge mask, generation-0 tokens) is built, in which the vertices of
+    /// the second bitmask have no `.txtpp` source yet but are hand-written plain files. Anything the
+    /// library remembers across `Txtpp::run` calls (lookups, file contents) shows in the judged run.
+    pub prior: Option<(u64, u64)>,
 }
 
 impl GraphCase {
     pub fn new(n: usize, mask: u64) -> Self {
-        Self { n, mask, kinds: 0, requested: (0..n).collect(), input_style: 0, threads: 2, stale: true, dup_edges: false, markers: true, obs: false, mode: Mode::Build, subdirs: false, fail_at: None, fail_kind: 0, after_only: false, vanish: false, slow_ms: 0, shaped: false, big: false, spaced: false, no_tail: false, stale_ext: false, linked: false }
+        Self { n, mask, kinds: 0, requested: (0..n).collect(), input_style: 0, threads: 2, stale: true, dup_edges: false, markers: true, obs: false, mode: Mode::Build, subdirs: false, fail_at: None, fail_kind: 0, after_only: false, vanish: false, slow_ms: 0, shaped: false, big: false, spaced: false, no_tail: false, stale_ext: false, linked: false, empty_leaves: false, outside: false, stale_link: false, prior: None }
     }
     pub fn graph(&self) -> Graph {
         Graph::from_mask(self.n, self.mask, self.kinds)
     }
     pub fn to_json(&self, spec: &Spec) -> Value {
         json!({"kind": "graph", "n": self.n, "mask": self.mask, "kinds": self.kinds, "requested": self.requested, "input_style": self.input_style, "threads": self.threads,
-            "stale": self.stale, "dup_edges": self.dup_edges, "markers": self.markers, "obs": self.obs, "mode": mode_name(&self.mode), "subdirs": self.subdirs, "fail_at": self.fail_at, "fail_kind": self.fail_kind, "after_only": self.after_only, "vanish": self.vanish, "slow_ms": self.slow_ms, "shaped": self.shaped, "big": self.big, "spaced": self.spaced, "no_tail": self.no_tail, "stale_ext": self.stale_ext, "linked": self.linked,
+            "stale": self.stale, "dup_edges": self.dup_edges, "markers": self.markers, "obs": self.obs, "mode": mode_name(&self.mode), "subdirs": self.subdirs, "fail_at": self.fail_at, "fail_kind": self.fail_kind, "after_only": self.after_only, "vanish": self.vanish, "slow_ms": self.slow_ms, "shaped": self.shaped, "big": self.big, "spaced": self.spaced, "no_tail": self.no_tail, "stale_ext": self.stale_ext, "linked": self.linked, "empty_leaves": self.empty_leaves, "outside": self.outside, "stale_link": self.stale_link, "prior": self.prior.map(|(a, b)| vec![a, b]),
             "edges": self.graph().edges.iter().enumerate().map(|(i, e)| format!("f{i} -> {:?}", e.iter().map(|(j, k)| format!("f{j}{}", if *k == EdgeKind::AfterCat { "(after+cat)" } else { "" })).collect::<Vec<_>>())).collect::<Vec<_>>(),
             "schedule": spec_json(spec)})
     }
@@ -102,15 +116,25 @@ impl GraphCase {
                 no_tail: v["no_tail"].as_bool().unwrap_or(false),
                 stale_ext: v["stale_ext"].as_bool().unwrap_or(false),
                 linked: v["linked"].as_bool().unwrap_or(false),
+                empty_leaves: v["empty_leaves"].as_bool().unwrap_or(false),
+                outside: v["outside"].as_bool().unwrap_or(false),
+                stale_link: v["stale_link"].as_bool().unwrap_or(false),
+                prior: v["prior"].as_array().and_then(|a| Some((a.first()?.as_u64()?, a.get(1)?.as_u64()?))),
             },
             spec_from_json(&v["schedule"]),
         )
     }
     pub fn hash(&self) -> u64 {
-        crate::util::hash_str(&format!("{:?}", (self.n, self.mask, self.kinds, &self.requested, self.input_style, self.threads, self.stale, self.dup_edges, self.subdirs, mode_name(&self.mode), (self.fail_at, self.fail_kind, self.after_only, self.vanish, self.shaped, self.big), (self.spaced, self.no_tail, self.stale_ext, self.linked))))
+        crate::util::hash_str(&format!("{:?}", (self.n, self.mask, self.kinds, &self.requested, self.input_style, self.threads, self.stale, self.dup_edges, self.subdirs, mode_name(&self.mode), (self.fail_at, self.fail_kind, self.after_only, self.vanish, self.shaped, self.big), (self.spaced, self.no_tail, self.stale_ext, self.linked, self.empty_leaves, self.prior, self.outside, self.stale_link))))
     }
     fn dir_of(&self, i: usize) -> &'static str {
-        if self.linked {
+        if self.outside {
+            if i % 2 == 1 {
+                "shared"
+            } else {
+                "proj"
+            }
+        } else if self.linked {
             "store"
         } else if self.subdirs && i % 2 == 1 {
             "d"
@@ -181,12 +205,16 @@ pub struct GraphRun {
 fn build_files(case: &GraphCase, generation: u32, marker_log: Option<&str>, obs_log: Option<&str>) -> Files {
     let g = case.graph();
     let flat = graph_files(&g, generation, 0xabc0 + case.mask, if case.markers { marker_log } else { None }, if case.obs { obs_log } else { None }, case.dup_edges);
-    if !case.subdirs && case.fail_at.is_none() && !case.after_only && !case.vanish && case.slow_ms == 0 && !case.shaped && !case.big && !case.spaced && !case.no_tail && !case.linked {
+    if !case.subdirs && case.fail_at.is_none() && !case.after_only && !case.vanish && case.slow_ms == 0 && !case.shaped && !case.big && !case.spaced && !case.no_tail && !case.linked && !case.empty_leaves && !case.outside {
         return flat;
     }
     // re-home odd files into d/ and rewrite references accordingly; inject the failing command
     let mut files = Files::new();
     for i in 0..case.n {
+        if case.empty_leaves && !case.markers && g.edges[i].is_empty() && case.fail_at != Some(i) {
+            files.insert(case.src_of(i), vec![]);
+            continue;
+        }
         let src = String::from_utf8(flat[&format!("{}.txtpp", graph_name(i))].clone()).unwrap();
         let mut out = String::new();
         for line in src.lines() {
@@ -194,15 +222,10 @@ fn build_files(case: &GraphCase, generation: u32, marker_log: Option<&str>, obs_
             if case.no_tail && l.contains(":tail:") {
                 continue;
             }
-            if case.subdirs || case.shaped || case.spaced {
+            if case.subdirs || case.shaped || case.spaced || case.outside {
                 for j in 0..case.n {
                     let name = graph_name(j);
-                    let file = case.file_name(j);
-                    let rel = match (case.dir_of(i), case.dir_of(j)) {
-                        ("", "d") => format!("d/{file}"),
-                        ("d", "") => format!("../{file}"),
-                        _ => file.clone(),
-                    };
+                    let rel = crate::gen::rel(case.dir_of(i), &case.path_of(j));
                     if rel != name {
                         for pat in [format!("include {name}"), format!("include ./{name}"), format!("after {name}"), format!("cat {name}"), format!("< {name})")] {
                             if l.contains(&pat) {
@@ -259,10 +282,11 @@ fn build_files(case: &GraphCase, generation: u32, marker_log: Option<&str>, obs_
 fn inputs_of(case: &GraphCase) -> Vec<String> {
     let mut v = vec![];
     for &i in &case.requested {
-        let p = case.path_of(i);
+        // (with `outside` the base directory is proj/: inputs are spelled relative to it)
+        let p = if case.outside { crate::gen::rel("proj", &case.path_of(i)) } else { case.path_of(i) };
         match case.input_style {
             0 => v.push(p),
-            1 => v.push(case.src_of(i)),
+            1 => v.push(if case.outside { crate::gen::rel("proj", &case.src_of(i)) } else { case.src_of(i) }),
             2 => v.push(format!("./{p}")),
             3 => {
                 v.push(p.clone());
@@ -310,6 +334,34 @@ pub fn exec(ctx: &mut Ctx, case: &GraphCase, spec: Spec, log_events: bool) -> Gr
     if case.linked {
         dirs.push("proj".to_string());
     }
+    if case.outside {
+        dirs.push("proj".to_string());
+        dirs.push("shared".to_string());
+    }
+    let base_dir = if case.outside { root.join("proj") } else { root.clone() };
+    if let (Some((pmask, plain)), false) = (case.prior, case.linked) {
+        // earlier revision, built in this process in this directory
+        let mut pc = case.clone();
+        pc.mask = pmask;
+        pc.kinds = case.kinds & pmask;
+        pc.markers = false;
+        pc.obs = false;
+        pc.fail_at = None;
+        pc.vanish = false;
+        pc.slow_ms = 0;
+        pc.prior = None;
+        let mut pf = build_files(&pc, 0, None, None);
+        for i in 0..case.n {
+            if plain >> i & 1 == 1 {
+                pf.remove(&pc.src_of(i));
+                pf.insert(pc.path_of(i), format!("{}:hand-written:g0\n", graph_name(i)).into_bytes());
+            }
+        }
+        materialize(&root, &pf, &dirs);
+        let pcfg = RunCfg { base: base_dir.clone(), inputs: if case.outside { vec![".".into(), "../shared".into()] } else { vec![".".into()] }, mode: Mode::Build, threads: 2, recursive: true, trailing: true, shell: String::new() };
+        let _ = run_inproc(&pcfg, Spec::Free { delay: None }, Some(&base_dir), false);
+        ctx.count("prior_revision_builds_in_the_same_process_and_directory", 1);
+    }
     materialize(&root, &files, &dirs);
     if case.linked {
         for i in 0..case.n {
@@ -351,7 +403,14 @@ pub fn exec(ctx: &mut Ctx, case: &GraphCase, spec: Spec, log_events: bool) -> Gr
                 (_, _, Some(v)) => v[0].clone().into_bytes(),
                 _ => format!("{}:stale:g0\n", graph_name(i)).into_bytes(),
             };
-            let _ = std::fs::write(root.join(&p), bytes);
+            if case.stale_link && !case.subdirs && !case.linked && !case.outside {
+                let _ = std::fs::create_dir_all(root.join("old"));
+                let _ = std::fs::write(root.join("old").join(&p), bytes);
+                let _ = std::fs::remove_file(root.join(&p));
+                let _ = std::os::unix::fs::symlink(format!("old/{p}"), root.join(&p));
+            } else {
+                let _ = std::fs::write(root.join(&p), bytes);
+            }
         }
     }
     // verify mode: plant the outputs a correct build would have left (for cyclic graphs made of
@@ -391,9 +450,14 @@ pub fn exec(ctx: &mut Ctx, case: &GraphCase, spec: Spec, log_events: bool) -> Gr
         }
     }
     let before = snap(&root);
-    let cfg = RunCfg { base: root.clone(), inputs: inputs_of(case), mode: case.mode.clone(), threads: case.threads, recursive: true, trailing: true, shell: String::new() };
-    let outcome = run_inproc(&cfg, spec, Some(&root), log_events);
+    let cfg = RunCfg { base: base_dir.clone(), inputs: inputs_of(case), mode: case.mode.clone(), threads: case.threads, recursive: true, trailing: true, shell: String::new() };
+    let outcome = run_inproc(&cfg, spec, Some(&base_dir), log_events);
     ctx.evals += 1;
+    for (on, name) in [(case.spaced, "spaced"), (case.no_tail, "no_tail"), (case.stale_ext, "stale_ext"), (case.linked, "linked"), (case.empty_leaves, "empty_leaves"), (case.outside, "outside"), (case.stale_link, "stale_link"), (case.prior.is_some(), "prior"), (case.shaped, "shaped"), (case.subdirs, "subdirs"), (case.big, "big"), (case.requested.is_empty() && case.input_style < 4, "empty_selection")] {
+        if on {
+            ctx.count(&format!("executions_with_variant_{name}"), 1);
+        }
+    }
     let after = snap(&root);
     let mut problems = liveness_problems(&outcome);
     let cyclic_req = req_vertices.iter().any(|&i| g.reaches_cycle(i));
@@ -427,9 +491,11 @@ pub fn exec(ctx: &mut Ctx, case: &GraphCase, spec: Spec, log_events: bool) -> Gr
                 match after.files.get(&p) {
                     None => problems.push(("missing-output".into(), format!("{p} missing after the run (verdict {})", outcome.verdict.short()))),
                     Some(e) => {
-                        if !want.iter().any(|w| w.as_bytes() == &e.bytes[..]) {
+                        // (an output path that is a symbolic link is read through the link)
+                        let got = if e.is_symlink { std::fs::read(root.join(&p)).unwrap_or_default() } else { e.bytes.clone() };
+                        if !want.iter().any(|w| w.as_bytes() == &got[..]) {
                             let class = if ok { "wrong-bytes" } else { "bystander-wrong" };
-                            problems.push((class.into(), format!("{p}: got {} expected {}", show(&e.bytes), show(want[0].as_bytes()))));
+                            problems.push((class.into(), format!("{p}: got {} expected {}", show(&got), show(want[0].as_bytes()))));
                         }
                     }
                 }
